@@ -571,6 +571,32 @@ class Eval:
         if op in ('zext', 'sext'):
             x = self.canon(self.ev(e[3], 'I'), signed=(op == 'sext'))
             return AV('I', x.a, x.c, x.elo, x.ehi, x.lo, x.hi, x.grid, w=e[2])
+        if op == 'icmp':
+            # decided when the ranges are ordered on the partition (else the partition is split)
+            pred, a, b = e[1], e[-2], e[-1]      # scalar form carries the width, the per-lane vector form does not
+            sg = pred.startswith('s')
+            x = self.canon(self.ev(a, 'I'), signed=sg)
+            y = self.canon(self.ev(b, 'I'), signed=sg)
+            def dec(lt, le, gt, ge, eq, ne):
+                return {'slt': lt, 'ult': lt, 'sle': le, 'ule': le, 'sgt': gt, 'ugt': gt, 'sge': ge, 'uge': ge, 'eq': eq, 'ne': ne}[pred]
+            if x.hi < y.lo:
+                r = dec(1, 1, 0, 0, 0, 1)
+            elif x.lo > y.hi:
+                r = dec(0, 0, 1, 1, 0, 1)
+            elif x.lo == x.hi == y.lo == y.hi:
+                r = dec(0, 1, 0, 1, 1, 0)
+            elif x.hi <= y.lo and pred in ('sle', 'ule', 'sgt', 'ugt'):
+                r = dec(0, 1, 0, 0, 0, 0)
+            elif x.lo >= y.hi and pred in ('sge', 'uge', 'slt', 'ult'):
+                r = dec(0, 0, 0, 1, 0, 0)
+            else:
+                raise NeedSplit()
+            return K('I', r, 1)
+        if op == 'sel':
+            c = self.canon(self.ev(e[1], 'I'))
+            if c.lo != c.hi:
+                raise NeedSplit()
+            return self.ev(e[2] if int(c.lo) else e[3], 'I')
         raise Unknown('integer operation %s' % op)
 
 
